@@ -85,7 +85,9 @@ Proof.
   2:{ symmetry. rewrite <- Hmod, Hlen. f_equal. lia. }
   cbn [Z.eqb negb].
   rewrite ensure_enough by (rewrite zlen_app; pose proof (zlen_nonneg (repeat 0 (Z.to_nat pad) ++ rest)); lia).
-  cbn [s_buf mk s_chunks s_end]. rewrite take_app_exact, drop_app_exact.
+  cbn [s_buf mk s_chunks s_end].
+  assert (Hp1: (zlen payload <? 1) = false) by (rewrite Hpl, zlen_cons; pose proof (zlen_nonneg pl); lia).
+  rewrite Hp1. rewrite take_app_exact, drop_app_exact.
   rewrite Hpl at 1. cbv iota.
   rewrite ensure_enough by (rewrite zlen_app, zlen_repeat; pose proof (zlen_nonneg rest); lia).
   cbn [s_buf mk s_chunks s_end].
